@@ -182,8 +182,18 @@ def run(ctx):
         except Exception as e:  # noqa: BLE001
             outcome["sampler"] = type(e).__name__ + ": " + str(e)[:80]
         sim_res = None
+        refuse_first = bool(rng.random() < 0.15)
+        if refuse_first:
+            ctx.bucket("objects_asked_after_refused_requests")
         try:
-            sim_res = emu.Simulator(c).simulate(inputs)
+            sim_ = emu.Simulator(c)
+            if refuse_first:
+                for bad_ in (State([1] * (k + 1)), [State(inputs[0].s), State([0] * k) if nph else State([1] + [0] * (k - 1))] if k else 3, "state"):
+                    try:
+                        sim_.simulate(bad_)
+                    except Exception:  # noqa: BLE001
+                        pass
+            sim_res = sim_.simulate(inputs)
             outcome["simulator"] = "ok"
         except Exception as e:  # noqa: BLE001
             outcome["simulator"] = type(e).__name__ + ": " + str(e)[:80]
@@ -191,6 +201,14 @@ def run(ctx):
         expected = None
         an = emu.Analyzer(c)
         try:
+            if refuse_first:
+                for fn_ in (lambda: an.analyze(State([1] * (k + 2))), lambda: setattr(an, "post_selection", 5),
+                            lambda: an.analyze(inputs, {State([1] * (k + 1)): State([0] * k)}), lambda: an.analyze("state"),
+                            lambda: setattr(an, "circuit", 3)):
+                    try:
+                        fn_()
+                    except Exception:  # noqa: BLE001
+                        pass
             an.post_selection = ps_obj
             an_res = an.analyze(inputs[0] if (len(inputs) == 1 and rng.random() < 0.5) else inputs)
             outcome["analyzer"] = "ok"
@@ -223,6 +241,15 @@ def run(ctx):
         qs_dist = None
         try:
             qs = emu.QuickSampler(c, inputs[0], photon_counting=pc, post_select=ps_obj)
+            if refuse_first:
+                for fn_ in (lambda: setattr(qs, "input_state", State([1] * (k + 1))) or qs.probability_distribution,
+                            lambda: setattr(qs, "post_select", 5), lambda: setattr(qs, "photon_counting", "yes"),
+                            lambda: setattr(qs, "circuit", None), lambda: qs.sample_N_outputs(-1)):
+                    try:
+                        fn_()
+                    except Exception:  # noqa: BLE001
+                        pass
+                qs.input_state = inputs[0]
             qs_dist = {tuple(st): p for st, p in qs.probability_distribution.items()}
             outcome["quick"] = "ok"
         except Exception as e:  # noqa: BLE001
